@@ -79,7 +79,7 @@ def _tabs(pt: dict):
 def _check_content(model, before: dict, scn: dict, out: list) -> None:
     after = content_of(model)
     if after != before:
-        changed = [k for k in ("parameters", "initial") if after[k] != before[k]]
+        changed = [k for k in after if after[k] != before.get(k)]
         out.append({"scn": scn, "detail": {"what": "model content changed", "changed": changed, "before": before, "after": after}})
 
 
@@ -138,18 +138,20 @@ def elasticity_cases(pt: dict, rnd: random.Random) -> tuple[list, dict]:
 HQ = 0.1               # the large displacement for which Mca.tla prints the EXACT symmetric quotient
 
 
-def _rc_tables(pt: dict, normalized: bool, h: float):
+def _rc_tables(pt: dict, normalized: bool, h: float, own_state: bool = False):
+    """own_state: variables=None on a model whose initial values are assignment rules (Mca.tla, NetM)."""
+    sfx = "_m" if own_state and pt.get("hasm") else ""
     if h == HQ:
-        return (pt["qcs"], pt["qfs"]) if normalized else (pt["qcu"], pt["qfu"])
-    return (pt["rcs"], pt["rfs"]) if normalized else (pt["rcu"], pt["rfu"])
+        return (pt["qcs" + sfx], pt["qfs" + sfx]) if normalized else (pt["qcu" + sfx], pt["qfu" + sfx])
+    return (pt["rcs" + sfx], pt["rfs" + sfx]) if normalized else (pt["rcu" + sfx], pt["rfu" + sfx])
 
 
-def _rc_compare(pt: dict, rc, normalized: bool, cols: list[str], h: float = H) -> dict:
+def _rc_compare(pt: dict, rc, normalized: bool, cols: list[str], h: float = H, own_state: bool = False) -> dict:
     vars_, pars, rxns = _tabs(pt)
     env = {k: fl(v) for k, v in pt["env"].items()}
     ss = {k: fl(v) for k, v in pt["ss"].items()}
     ssf = {k: fl(v) for k, v in pt["ssflux"].items()}
-    tc, tf = _rc_tables(pt, normalized, h)
+    tc, tf = _rc_tables(pt, normalized, h, own_state)
 
     # Sound bound.  The steady-state search is only as accurate as its integrator: scipy's lsoda runs with its default
     # rtol = 1e-6 (integrate_to_steady_state does not forward atol / rtol, so this cannot be tightened through the
@@ -204,7 +206,7 @@ def response_cases(pt: dict, rnd: random.Random, parallel_too: bool) -> tuple[li
             except Exception as e:  # noqa: BLE001
                 out.append({"scn": scn, "detail": {"what": "exception", "exc": f"{type(e).__name__}: {e}"[:300]}})
                 continue
-            bad = _rc_compare(pt, rc, normalized, cols, h)
+            bad = _rc_compare(pt, rc, normalized, cols, h, own_state=not with_vars)
             if "ok" not in bad:
                 out.append({"scn": scn, "detail": bad})
             else:
@@ -248,7 +250,8 @@ def _par_point(item):
 def classify(scn: dict, detail: dict) -> str | None:
     """Finding key from the SHAPE of the failing case."""
     if (scn.get("routine") == "response_coefficients" and scn.get("parallel") is False and scn.get("with_variables")
-            and detail.get("what") == "model content changed" and detail.get("changed") == ["initial"]):
+            and detail.get("what") == "model content changed" and "initial" in detail.get("changed", [])
+            and "parameters" not in detail.get("changed", [])):
         return "y0-persists"
     return None
 
@@ -260,7 +263,7 @@ def points(ctx: Ctx, rep: Report) -> list[dict]:
     pts = [norm_point(p) for p in res.payloads]
     if len(pts) < 200:
         raise MachineryError(f"only {len(pts)} points emitted")
-    if {p["net"] for p in pts} != {"chain2", "branch", "rev", "cycle", "ia", "pl"}:
+    if {p["net"] for p in pts} != {"chain2", "branch", "rev", "sgn", "cycle", "ia", "iac", "pl"}:
         raise MachineryError("a network of the family is missing from the emission")
     return pts
 
@@ -320,7 +323,7 @@ def run(ctx: Ctx) -> int:
     pts = points(ctx, rep)
     binding_selftest(pts, rep)
     rnd = random.Random(ctx.seed)
-    cap = 256 if ctx.quick else 4000
+    cap = 336 if ctx.quick else 4000
     pick = pts if len(pts) <= cap else rnd.sample(pts, cap)
     results = pmap(_seq_point, [(p, ctx.seed) for p in pick], chunk=4)
     worst_el = worst_rc = 0.0
